@@ -21,7 +21,7 @@ import (
 )
 
 var (
-	jwksSrv, introSrv, identSrv *vkit.Scripted
+	jwksSrv, introSrv, identSrv, metaSrv *vkit.Scripted
 	sigKey                      *ecdsa.PrivateKey
 	otherKey                    *ecdsa.PrivateKey
 )
@@ -31,7 +31,7 @@ const issuer = "https://issuer.example.com"
 func TestMain(m *testing.M) {
 	vkit.RegisterProbes()
 
-	jwksSrv, introSrv, identSrv = vkit.NewScripted(), vkit.NewScripted(), vkit.NewScripted()
+	jwksSrv, introSrv, identSrv, metaSrv = vkit.NewScripted(), vkit.NewScripted(), vkit.NewScripted(), vkit.NewScripted()
 	sigKey = vkit.LoadKey("ecp256").(*ecdsa.PrivateKey)
 	otherKey = vkit.LoadKey("ecp256b").(*ecdsa.PrivateKey)
 
@@ -41,7 +41,9 @@ func TestMain(m *testing.M) {
 // ---- chain and credentials ------------------------------------------------------------------------
 
 type authn struct {
-	Type        string // anonymous unauthorized basic_auth jwt oauth2_introspection generic
+	// Type: anonymous unauthorized basic_auth jwt oauth2_introspection generic, and jwt_meta / introspection_meta: the
+	// latter two discover their endpoints with a metadata endpoint, the URL of which is templated with the issuer of the token
+	Type        string
 	ProtoFB     bool   // allow_fallback_on_error in the prototype
 	OverrideFB  *bool  // rule-level override
 	effectiveFB bool
@@ -62,6 +64,8 @@ var authzKinds = []string{
 	"bearer-jwt-valid", "bearer-jwt-badsig", "bearer-jwt-expired", "bearer-jwt-wrongiss", "bearer-jwt-otherkey",
 	// well-formed tokens secured with another RFC 7518 algorithm than the published key is for: found and rejected, too
 	"bearer-jwt-hs256-keyed-with-public-key", "bearer-jwt-hs512-random-secret", "bearer-jwt-rs256-header-on-ec-signature", "bearer-jwt-unknown-kid",
+	// a correctly signed token which does not name its issuer: found, and not acceptable for anybody expecting an issuer
+	"bearer-jwt-noiss",
 }
 
 func mintJWT(kind string) string {
@@ -76,6 +80,8 @@ func mintJWT(kind string) string {
 		claims["iss"] = "https://evil.example.com"
 	case "bearer-jwt-otherkey":
 		key = otherKey
+	case "bearer-jwt-noiss":
+		delete(claims, "iss")
 	}
 
 	header := map[string]any{"alg": "ES256", "kid": "k1", "typ": "JWT"}
@@ -163,11 +169,14 @@ func classify(a authn, c creds) class {
 		default:
 			return class{"rejected", ""}
 		}
-	case "jwt":
+	case "jwt", "jwt_meta":
 		switch {
 		case !strings.HasPrefix(c.Authz, "bearer-jwt-"):
 			// no bearer token at all, or a bearer token which is not in JWT format: not this authenticator's credential
 			return class{"none", ""}
+		case a.Type == "jwt_meta" && (c.Authz == "bearer-jwt-noiss" || c.Authz == "bearer-jwt-wrongiss"):
+			// the token is there, but there is nobody to ask for the keys of its issuer
+			return class{"rejected", ""}
 		case c.JWKS == "fail":
 			return class{"remotefail", ""}
 		case c.Authz == "bearer-jwt-valid":
@@ -175,10 +184,14 @@ func classify(a authn, c creds) class {
 		default:
 			return class{"rejected", ""}
 		}
-	case "oauth2_introspection":
+	case "oauth2_introspection", "introspection_meta":
 		switch {
 		case !strings.HasPrefix(c.Authz, "bearer-"):
 			return class{"none", ""}
+		case a.Type == "introspection_meta" && (!strings.HasPrefix(c.Authz, "bearer-jwt-") || c.Authz == "bearer-jwt-noiss" || c.Authz == "bearer-jwt-wrongiss"):
+			// a token is there, but it does not tell its issuer (opaque, not a JWT), or nothing is known about that issuer:
+			// there is nobody to ask about it
+			return class{"rejected", ""}
 		case c.Authz == "bearer-opaque-valid":
 			return class{"valid", "opaque-user"}
 		case c.Authz == "bearer-jwt-valid", c.Authz == "bearer-jwt-unknown-kid":
@@ -260,6 +273,17 @@ func scriptServers(c creds) {
 		}
 	})
 
+	metaSrv.Set(func(call vkit.Call) vkit.Reply {
+		q, _ := url.ParseQuery(call.RawQuery)
+		if call.Path != "/meta" || q.Get("iss") != issuer {
+			return vkit.Reply{Status: 404}
+		}
+
+		raw, _ := json.Marshal(map[string]any{"issuer": issuer, "jwks_uri": jwksSrv.URL() + "/jwks", "introspection_endpoint": introSrv.URL() + "/introspect"})
+
+		return vkit.JSONReply(200, raw)
+	})
+
 	identSrv.Set(func(call vkit.Call) vkit.Reply {
 		switch call.Header.Get("X-Session") {
 		case "valid-session":
@@ -312,6 +336,11 @@ func protoConfig(a authn) config.MechanismConfig {
 		c["jwks_endpoint"] = map[string]any{"url": jwksSrv.URL() + "/jwks"}
 		c["assertions"] = map[string]any{"issuers": []any{issuer}}
 		c["cache_ttl"] = "0s"
+	case "jwt_meta", "introspection_meta":
+		c["metadata_endpoint"] = map[string]any{"url": metaSrv.URL() + "/meta?iss={{ .TokenIssuer }}", "disable_issuer_identifier_verification": true,
+			"http_cache": map[string]any{"enabled": false}}
+		c["assertions"] = map[string]any{"issuers": []any{issuer}}
+		c["cache_ttl"] = "0s"
 	case "oauth2_introspection":
 		c["introspection_endpoint"] = map[string]any{"url": introSrv.URL() + "/introspect"}
 		c["assertions"] = map[string]any{"issuers": []any{issuer}}
@@ -329,12 +358,23 @@ func protoConfig(a authn) config.MechanismConfig {
 	return c
 }
 
+func mechanismType(typ string) string {
+	switch typ {
+	case "jwt_meta":
+		return "jwt"
+	case "introspection_meta":
+		return "oauth2_introspection"
+	}
+
+	return typ
+}
+
 func genChain(t *rapid.T) []authn {
 	n := rapid.IntRange(1, 4).Draw(t, "chainLen")
 	chain := make([]authn, n)
 
 	for i := range chain {
-		a := authn{Type: rapid.SampledFrom([]string{"anonymous", "unauthorized", "basic_auth", "basic_auth", "jwt", "jwt", "oauth2_introspection", "oauth2_introspection", "generic", "generic"}).Draw(t, "type")}
+		a := authn{Type: rapid.SampledFrom([]string{"anonymous", "unauthorized", "basic_auth", "basic_auth", "jwt", "jwt", "oauth2_introspection", "oauth2_introspection", "generic", "generic", "jwt_meta", "introspection_meta"}).Draw(t, "type")}
 
 		if a.Type != "anonymous" && a.Type != "unauthorized" {
 			a.ProtoFB = rapid.IntRange(0, 3).Draw(t, "protoFB") == 0
@@ -388,7 +428,7 @@ func TestFallbackOnlyOnMissingCredentialsOrOptIn(t *testing.T) {
 
 		for i, a := range chain {
 			id := fmt.Sprintf("a%d", i)
-			conf.Prototypes.Authenticators = append(conf.Prototypes.Authenticators, config.Mechanism{ID: id, Type: a.Type, Config: protoConfig(a)})
+			conf.Prototypes.Authenticators = append(conf.Prototypes.Authenticators, config.Mechanism{ID: id, Type: mechanismType(a.Type), Config: protoConfig(a)})
 
 			ref := config.MechanismConfig{"authenticator": id}
 			if a.OverrideFB != nil {
@@ -451,6 +491,7 @@ func TestFallbackOnlyOnMissingCredentialsOrOptIn(t *testing.T) {
 		for i, a := range chain {
 			classes[i] = a.String() + ":" + classify(a, c).Kind
 			vkit.S.Label("class=" + classify(a, c).Kind)
+			vkit.S.LabelIf(strings.HasSuffix(a.Type, "_meta"), a.Type+"="+classify(a, c).Kind)
 		}
 
 		desc := fmt.Sprintf("%v creds=%+v", classes, c)
